@@ -194,7 +194,12 @@ def run_case(case: dict[str, Any]) -> dict[str, Any]:
                 if not recs[i].done:
                     cancels[i] = sim.next_seq()
                     sim.cancel(recs[i])
-            sim.at(t0 + 0.001 + at, do_cancel)
+            if case.get("cancel_after_io"):
+                # same loop iteration as the traffic of that instant, but BEHIND it (zero-delay timer): the answer has been dispatched,
+                # the operation's task has not resumed yet
+                sim.net.at(t0 + 0.001 + at, lambda f=do_cancel: sim.loop.call_at(sim.loop.time(), f))
+            else:
+                sim.at(t0 + 0.001 + at, do_cancel)
         horizon = 31.0 if any(o["op"] == "get_services" for o in ops) else 2.0
         sim.run(until=lambda: all(r.done for r in recs), max_time=t0 + horizon + 0.5)
         sim.run_for(0.01)
@@ -437,6 +442,12 @@ def shard(ctx: Ctx) -> None:
             if ctx.mine(idx):
                 base = {"op": name, "addr": A, "handle": 1}
                 one(ctx, {"ops": [base], "replies": [["T_fa", 0]], "cancel": {"0": at}}, "cancel-then-matching-traffic")
+        # cancel in the very loop iteration in which the deciding answer arrives, ahead of it and behind it
+        for after_io in (False, True):
+            idx += 1
+            if ctx.mine(idx):
+                base = {"op": name, "addr": A, "handle": 1}
+                one(ctx, {"ops": [base], "replies": [["T", 0], ["T", 0]], "cancel": {"0": 0.01}, "cancel_after_io": after_io}, "cancel-races-answer")
 
 
 def replay(spec: dict[str, Any]) -> int:
